@@ -94,7 +94,8 @@ func startC17(cfg c17Cfg) *c17Proc {
 	self, _ := os.Executable()
 	cmd := exec.Command(filepath.Join(filepath.Dir(self), "cql-proxy"),
 		"--contact-points", be.IP(1), "--port", fmt.Sprint(port), "--bind", addr,
-		"--protocol-version", cfg.proxyVer, "--max-protocol-version", cfg.proxyMax)
+		"--protocol-version", cfg.proxyVer, "--max-protocol-version", cfg.proxyMax,
+		"--heartbeat-interval", "150ms", "--idle-timeout", "3s")
 	cmd.Env = []string{"PATH=" + os.Getenv("PATH"), "HOME=" + os.Getenv("HOME")}
 	p := &c17Proc{be: be, cmd: cmd, addr: addr, stderr: &lockedBuf{}, exited: make(chan struct{}), cver: cfg.canary, cfgName: cfg.name}
 	cmd.Stderr = p.stderr
@@ -626,6 +627,33 @@ func c17Backend(ctx *Ctx, p *c17Proc, cfg c17Cfg, r *hv.Rng, full bool) {
 		_, _ = cl.Next(600 * time.Millisecond) // whatever the client gets, or nothing (the request was lost with its connection)
 		cl.Close()
 		p.verdict(ctx, 9, fmt.Sprintf("%s (to %T)", rp.desc, m), true, "hostile-backend-reply")
+	}
+	// hostile answers to the proxy's OWN requests: heartbeats (OPTIONS) of pooled and control connections answered
+	// with UNPREPARED for a statement that IS in the prepared cache (the proxy then prepares it and has to do
+	// something with the request it was "for"), with other errors, wrong opcodes and garbage
+	cachedUnprep := append(append([]byte{}, unprep...), append([]byte{0, 16}, id...)...)
+	for _, hb := range []rep{
+		{"heartbeat answered UNPREPARED with a cached id", fb.Outcome{Kind: fb.RawReply, RawOpcode: 0, RawBody: cachedUnprep}},
+		{"heartbeat answered UNPREPARED with an unknown id", fb.Outcome{Kind: fb.RawReply, RawOpcode: 0, RawBody: append(append([]byte{}, unprep...), shortString("nobody-prepared-this")...)}},
+		{"heartbeat answered with a RESULT", fb.Outcome{Kind: fb.RawReply, RawOpcode: 8, RawBody: []byte{0, 0, 0, 1}}},
+		{"heartbeat answered with an empty ERROR", fb.Outcome{Kind: fb.RawReply, RawOpcode: 0}},
+		{"heartbeat answered with garbage SUPPORTED", fb.Outcome{Kind: fb.RawReply, RawOpcode: 6, RawBody: []byte{0xff, 0xff, 1}}},
+		{"heartbeat answered on another stream", fb.Outcome{Kind: fb.RawReply, RawOpcode: 6, RawBody: []byte{0, 0}, RawStream: i16(777)}},
+	} {
+		if !p.alive() {
+			return
+		}
+		var outs []fb.Outcome
+		for k := 0; k < 6; k++ {
+			outs = append(outs, hb.out)
+		}
+		p.be.QueueOptionsReplies(outs...)
+		deadline := time.Now().Add(3 * time.Second)
+		for p.be.OptionsRepliesLeft() > 0 && time.Now().Before(deadline) && p.alive() {
+			time.Sleep(20 * time.Millisecond)
+		}
+		time.Sleep(300 * time.Millisecond) // the PREPARE the proxy may have sent is answered meanwhile
+		p.verdict(ctx, 11, hb.desc, true, "hostile-heartbeat-reply")
 	}
 	// garbage EVENT frames on the control connection
 	for _, body := range [][]byte{nil, {0}, {0, 3, 'F', 'O', 'O'}, shortString("SCHEMA_CHANGE"), append(shortString("SCHEMA_CHANGE"), shortString("CREATED")...),
